@@ -68,7 +68,7 @@ func yamlGoValue(r *rand.Rand) (any, string) {
 }
 
 func checkC18(c *vkit.Ctx) {
-	c.P.Rule = "three sub-workloads: (a) valid YAML text (multi-document streams, block scalars containing `---` / `/-/-/-/`, comments, anchors, flow sequences that look like entry headers, with/without final newline, trailing blank lines) passed as string or []byte to MatchYAML without matchers into a file that already holds a neighbour entry: the body found by the independent reader must equal the input with whole `---` lines escaped, byte for byte, and a replay in a fresh simulated process must pass without writing; (b) marshalable Go values (maps with >=3 keys, nested tagged structs, slices, maps of maps, a pointer value recorded in turns with an anchor-tagged struct that shares the pointer) recorded 50 times in fresh slots across simulated process restarts: all texts equal; (c) invalid YAML, alone or together with matchers that have nothing to object to (Any/Custom on an existing member, lenient Any/Type on a missing path, Any without paths), in four modes over missing/existing slots: exactly one Error, digest unchanged; non-trivial = document carrying >=1 hostile YAML class, any Go value, any invalid document; distinct by hash(input, form)"
+	c.P.Rule = "three sub-workloads: (a) valid YAML text (multi-document streams, block scalars containing `---` / `/-/-/-/`, comments, anchors, flow sequences that look like entry headers, with/without final newline, trailing blank lines, streams ending in a bare `---` line) passed as string or []byte to MatchYAML without matchers into a file that already holds a neighbour entry: the body found by the independent reader must equal the input with whole `---` lines escaped, byte for byte, and a replay in a fresh simulated process must pass without writing; (b) marshalable Go values (maps with >=3 keys, nested tagged structs, slices, maps of maps, a pointer value recorded in turns with an anchor-tagged struct that shares the pointer) recorded 50 times in fresh slots across simulated process restarts: all texts equal; (c) invalid YAML, alone or together with matchers that have nothing to object to (Any/Custom on an existing member, lenient Any/Type on a missing path, Any without paths), in four modes over missing/existing slots: exactly one Error, digest unchanged; non-trivial = document carrying >=1 hostile YAML class, any Go value, any invalid document; distinct by hash(input, form)"
 	c.P.Assumptions = []string{"goccy/go-yaml's decoder decides which generated texts are valid YAML"}
 	n := c.N(40000, 1000000)
 	for i := 0; i < n; i++ {
